@@ -283,9 +283,13 @@ type ChainOp struct {
 }
 
 type ChainCase struct {
-	Seeds []gen.MeshDesc
-	Prim  []int // extra sources: primitive generator results (kind per entry)
-	Ops   []ChainOp
+	// LargeN > 0 adds a source with more than 65 536 vertices, almost all unreferenced (built from a
+	// recipe, not stored): counts, shift tables and fast paths beyond 16 bits
+	LargeN    int `json:",omitempty"`
+	LargeTopo int `json:",omitempty"`
+	Seeds     []gen.MeshDesc
+	Prim      []int // extra sources: primitive generator results (kind per entry)
+	Ops       []ChainOp
 }
 
 var chainKinds = func() []string {
@@ -311,6 +315,10 @@ func genChain(t *rapid.T) ChainCase {
 	}
 	if rapid.IntRange(0, 3).Draw(t, "withPrim") == 0 {
 		c.Prim = []int{rapid.IntRange(0, 6).Draw(t, "prim")}
+	}
+	if rapid.IntRange(0, 59).Draw(t, "withLarge") == 0 {
+		c.LargeN = 65536 + rapid.IntRange(1, 2000).Draw(t, "over")
+		c.LargeTopo = int(rapid.SampledFrom([]modeling.Topology{modeling.TriangleTopology, modeling.PointTopology}).Draw(t, "largeTopo"))
 	}
 	c.Ops = rapid.SliceOfN(rapid.Custom(func(t *rapid.T) ChainOp {
 		op := mops.Gen(t)
@@ -345,6 +353,11 @@ func runChain(c ChainCase, o *vh.Obs) *vh.Failure {
 		if !d.IdentityIdx() || d.HasUnreferenced() || arities(d) >= 2 {
 			nontrivial = true
 		}
+	}
+	if c.LargeN > 65536 && c.LargeN <= 70000 {
+		pool = append([]modeling.Mesh{largeMesh(c.LargeN, modeling.Topology(c.LargeTopo))}, pool...) // slot 0: most picks land on it
+		nontrivial = true
+		o.Class("chain/large-source")
 	}
 	for _, k := range c.Prim {
 		pool = append(pool, mops.Apply(mops.Op{K: "prim", X: []int{k, 3, 4}}, modeling.Mesh{}, modeling.Mesh{})...)
@@ -386,7 +399,7 @@ func runChain(c ChainCase, o *vh.Obs) *vh.Failure {
 			if err := oracle.WF(r); err != nil {
 				return vh.Failf("op-malformed/"+co.Op.K, "step %d: result %d of %s (precondition met: %v) is malformed: %v", step, ri, co.Op.K, ok, err)
 			}
-			if r.AttributeLength() <= 4000 {
+			if r.AttributeLength() <= 4000 || (c.LargeN > 0 && len(pool) < 6) {
 				pool = append(pool, r)
 			}
 		}
@@ -406,6 +419,20 @@ func runChain(c ChainCase, o *vh.Obs) *vh.Failure {
 		o.NonTrivial()
 	}
 	return nil
+}
+
+func largeMesh(n int, topo modeling.Topology) modeling.Mesh {
+	pos := make([]vector3.Float64, n)
+	w := make([]float64, n)
+	for i := range pos {
+		pos[i] = vector3.New(float64(i%251)/8, float64((i/251)%251)/8, float64(i/63001)/8+float64(i%7)/64)
+		w[i] = float64(i)
+	}
+	idx := []int{0, 1, 2, 2, 1, 3, n/2 + 1, n / 2, n/2 + 5, n - 3, n - 2, n - 1, 0, n - 1, n / 2}
+	if topo == modeling.PointTopology {
+		idx = []int{n - 1, 0, n / 2, 3, n - 2}
+	}
+	return modeling.NewMesh(topo, idx).SetFloat3Attribute(modeling.PositionAttribute, pos).SetFloat1Attribute("w", w)
 }
 
 func arities(d gen.MeshDesc) int {
